@@ -304,7 +304,11 @@ Obs runCase(const Spec& s) {
         while (!cancelDone.load(std::memory_order_relaxed)) usleep(50);
         // the only kick-off so far is parked before its wrapper exists, and cancel() has returned:
         // every wrapper's test comes later
-        if (o.gateReached && startedBefore == 0) allowedAfterCancel = 0;
+        // (exactly one kick-off has passed the cancelled test since the case began: the parked one. On a
+        // loaded machine an earlier kick-off can slip through before the gate is armed; its wrapper may
+        // legitimately have tested the flag before cancel())
+        o.kickoffs = static_cast<long>(vrt::hookHits(V::kTimedAfterCancelTest) - hits0);
+        if (o.gateReached && startedBefore == 0 && o.kickoffs == 1) allowedAfterCancel = 0;
         o.dtorBeforeGateOpen = hs::pollUntil([&] { return dtorDone.load(std::memory_order_relaxed) != 0; }, 20);
         vrt::gateOpen(V::kTimedAfterCancelTest);
         helper.join();
